@@ -355,7 +355,59 @@ class ForeignFamily(Family):
         return any(o.startswith("des.feed") and len(o) > 60 for o in ops)
 
 
-FAMILIES = {f.name: f for f in [TimeFamily(), AmfFamily(), AmfAdvFamily(), ChunkFamily(), ForeignFamily()]}
+# -------------------------------------------------------------------------------------------- msg
+import gen_msg as GM
+
+
+class MsgFamily(Family):
+    name = "msg"
+    panic_is_failure = False   # msg.to on ill-formed user-control input panics by design (debug_assert); model must say so too
+    anchored = ["rtmp/src/messages/message_payload.rs", "rtmp/src/messages/types/user_control.rs",
+                "rtmp/src/messages/types/set_peer_bandwidth.rs", "rtmp/src/messages/types/set_chunk_size.rs"]
+    rule = ("one case = (a) a generated message of a random variant with boundary-biased u32 fields, all 9 user-control events, all "
+            "3 limit types, AMF0 command/data arguments from the AMF0 generator: msg.to (model vs code; single-key maps so the bytes "
+            "are deterministic), then msg.from of the produced body, !msg.rt (round trip + layout against an independent "
+            "specification table / reference AMF0 decoder, multi-key maps allowed); (b) fixed part: all 256 type ids × bodies {empty, "
+            "short, exact, long, AMF0-looking}: msg.from, !msg.unknown, !msg.alias; every user-control code 0..40 and limit byte 0..5; "
+            "chunk sizes around 2^31; ill-formed user-control field combinations; non-trivial = every case; distinct = distinct op text")
+
+    def gen(self, rng, tier, pid, stats):
+        bodies = ["-", "00", "00000001", "0000000105", "000000010203040506070809", "0200016100000000000000000005",
+                  "020003616263003ff0000000000000030000090101", "7fffffff", "80000000", "ffffffffff", "000600000005"]
+        for t in range(256):
+            ops = []
+            for bd in bodies:
+                ops.append(f"msg.from {t} {bd}")
+                ops.append(f"!msg.unknown {t} {bd}")
+            bump(stats, "type_id_cases")
+            yield ops
+        yield [f"!msg.alias {bd}" for bd in bodies] + [f"msg.from 17 00{bd if bd != '-' else ''}" for bd in bodies] + [f"msg.from 17 {bd}" for bd in bodies]
+        yield [f"msg.from 4 {c:04x}0000000a0000000b" for c in range(41)] + [f"msg.from 4 {c:04x}0000" for c in (0, 3, 6)] + ["msg.from 4 00030000000a0000", "msg.from 4 00", "msg.from 4 -"]
+        yield [f"msg.from 6 00000100{l:02x}" for l in range(6)] + ["msg.from 6 00000100", "msg.from 6 000001"]
+        for n in (0, 1, (1 << 31) - 1, 1 << 31, (1 << 31) + 1, M32 - 1):
+            yield [f"msg.to scs/{n}", f"!msg.rt scs/{n} 0 0", f"msg.from 1 {n:08x}", f"msg.from 1 {n:08x}ff"]
+        yield ["msg.from 20 -", "msg.from 20 0200016100000000000000000005", "msg.from 20 02000161", "msg.from 20 020001610000000000000000000",
+               "msg.from 20 000000000000000000020001610500", "msg.from 20 0200016102000162050", "msg.from 20 0200016100000000000000000005050505",
+               "msg.from 20 09", "msg.from 20 02000161000000000000000000", "msg.from 18 -", "msg.from 18 09", "msg.from 18 0505"]
+        n = 2500 if tier == "quick" else 30000
+        for _ in range(n):
+            wf = not rng.chance(1, 6)
+            m = GM.gen_msg(rng, well_formed=wf, single_key=True)
+            bump(stats, "variant_" + m.split("/")[0])
+            m2 = GM.gen_msg(rng, well_formed=True, single_key=False)
+            ops = [f"!msg.rt {m2} {GM.u32(rng)} {GM.u32(rng)}"]
+            if wf:
+                ops.append(f"!msg.rt {m} {GM.u32(rng)} {GM.u32(rng)}")
+            else:
+                bump(stats, "ill_formed_user_control")
+            ops.append(f"msg.to {m}")     # last: an ill-formed user-control message trips a debug_assert (API misuse, mirrored as `panic`)
+            yield ops
+
+    def nontrivial(self, ops):
+        return True
+
+
+FAMILIES = {f.name: f for f in [TimeFamily(), AmfFamily(), AmfAdvFamily(), ChunkFamily(), ForeignFamily(), MsgFamily()]}
 
 
 # ------------------------------------------------------------------------------- known findings
